@@ -52,7 +52,7 @@ def _strategy(kinds):
                                                        else ["poly", "noise", "mixed", "checker", "noise", "mixed", "constant"],
                                                        max_mag_exp=4)),
                 "forcing": draw(gen.vector_field_spec(dim, kinds=fk + ["zero"], max_mag_exp=6)),
-                "free_stream": draw(st.lists(gen.floats(-4.0, 4.0, 32), min_size=dim, max_size=dim)),
+                "free_stream": draw(st.lists(st.one_of(gen.floats(-4.0, 4.0, 32), gen.floats(-4.0, 4.0, 32), st.just(0.0)), min_size=dim, max_size=dim)),
                 "dt_frac": draw(gen.floats(0.05, 2.0, 32)),
                 "steps": draw(st.sampled_from([1, 1, 1, 1, 2])),
                 "fs_as_list": draw(st.booleans()),
@@ -179,11 +179,11 @@ def _hist_strategy(kinds):
             op = st.one_of(
                 st.fixed_dictionaries({"op": st.just("step"), "who": st.integers(0, 1),
                                        "dt_frac": gen.floats(0.05, 1.5, 32),
-                                       "free_stream": st.lists(gen.floats(-4.0, 4.0, 32), min_size=dim, max_size=dim),
+                                       "free_stream": st.lists(st.one_of(gen.floats(-4.0, 4.0, 32), gen.floats(-4.0, 4.0, 32), st.just(0.0)), min_size=dim, max_size=dim),
                                        "forcing": st.one_of(st.none(), gen.vector_field_spec(dim, kinds=fk, max_mag_exp=5))}),
                 st.fixed_dictionaries({"op": st.just("step"), "who": st.integers(0, 1),
                                        "dt_frac": gen.floats(0.05, 1.5, 32),
-                                       "free_stream": st.lists(gen.floats(-4.0, 4.0, 32), min_size=dim, max_size=dim),
+                                       "free_stream": st.lists(st.one_of(gen.floats(-4.0, 4.0, 32), gen.floats(-4.0, 4.0, 32), st.just(0.0)), min_size=dim, max_size=dim),
                                        "forcing": st.none()}),
                 st.fixed_dictionaries({"op": st.just("restate"), "who": st.integers(0, 1), "state": state}),
                 st.fixed_dictionaries({"op": st.just("query"), "who": st.integers(0, 1),
